@@ -2,7 +2,7 @@
 P = 1, virtual clock (no time-limited step is ever skipped by machine load), library relocated
 into scratch.  The schedule space of this configuration is a single point; what is generated
 is the configuration (six shipped bases + seeded sub-bases through the guarded hook).
-Oracle: LIVE + LIB-SOUND items 1-4 (+ item 5 'same family' for unrecoverable maps, thorough)."""
+Oracle: LIVE + LIB-SOUND items 1-5."""
 import time
 
 from esrsim.pool import Pool
@@ -36,7 +36,7 @@ def main(tier, seed, budget):
     cfgs, skipped = configs.pool(crng, n_sub=60 if quick else 300, max_n=5, cap=1000 if quick else 3000)
     hashseeds = [0] if quick else [0, 1, 2, 3]
     deadline = time.time() + (budget or (170 if quick else 1500))
-    stats = dict(worlds=0, functions=0, merged=0, mapped=0, nan_chains=0, points=0, inconclusive=0, nontrivial=set(), events=0,
+    stats = dict(worlds=0, functions=0, merged=0, mapped=0, nan_chains=0, points=0, inconclusive=0, family_ok=0, family_inconclusive=0, rechecked_equal=0, rechecked_noise=0, nontrivial=set(), events=0,
                  not_run=0, wall_timeouts=[], real_cap_expiries=0)
     samples = []
     pending_min = []
@@ -65,7 +65,7 @@ def main(tier, seed, budget):
                 stats['worlds'] += 1
                 stats['events'] += r['steps']
                 st = r.get('stats') or {}
-                for k in ('functions', 'merged', 'mapped', 'nan_chains', 'points', 'inconclusive'):
+                for k in ('functions', 'merged', 'mapped', 'nan_chains', 'points', 'inconclusive', 'family_ok', 'family_inconclusive', 'rechecked_equal', 'rechecked_noise'):
                     stats[k] += st.get(k, 0)
                 if st.get('merged', 0) > 0:
                     stats['nontrivial'].add((a['runname'], a['compl'], hs))
@@ -99,7 +99,8 @@ def main(tier, seed, budget):
         configurations_not_run_budget=stats['not_run'], configurations_wall_timeout=stats['wall_timeouts'],
         real_time_cap_expiries=stats['real_cap_expiries'], functions_checked=stats['functions'], functions_merged=stats['merged'],
         functions_with_recorded_map=stats['mapped'], functions_marked_unrecoverable=stats['nan_chains'],
-        oracle_points_evaluated=stats['points'], oracle_inconclusive_functions=stats['inconclusive'], hash_seeds=hashseeds,
+        oracle_points_evaluated=stats['points'], same_family_pairs_confirmed=stats['family_ok'], same_family_pairs_inconclusive=stats['family_inconclusive'],
+        oracle_points_rechecked_equal_at_200_digits=stats['rechecked_equal'], oracle_points_discarded_as_unstable=stats['rechecked_noise'], oracle_inconclusive_functions=stats['inconclusive'], hash_seeds=hashseeds,
         seam_events=stats['events'], runs_per_hour=round(3600.0 * stats['worlds'] / max(wall, 1e-9)),
         fault_kinds={'none (baseline configuration)': 0, 'F6 hash seed': len(hashseeds)}, components=base.COMPONENTS,
         harness_errors=len(rep.harness), repo_head=base.repo_head(), exhaustive=False)
@@ -108,5 +109,5 @@ def main(tier, seed, budget):
                         ['this is the fault-free, single-rank configuration of the C13/C15 simulation: the simulator contributes the virtual clock '
                          '(no step skipped by machine load) and the relocation of the library directory; no schedule is explored',
                          'map exactness is checked numerically at >= 6 generic real points (x in [0.3,3], parameters +-[0.3,3]) with 30-digit arithmetic',
-                         'the same-family clause for unrecoverable maps is checked only as "unique has strictly fewer parameters"'])
+                         'the same-family clause for unrecoverable maps is checked in the forward direction: for sampled parameters of the function there are parameters of the unique function reproducing it on 8 abscissae (candidate combinations + Levenberg-Marquardt, float64, 1e-7); reported only if every one of >= 5 samples fails from every start; distinct (function, unique) pairs are cached per worker, so the counts are pairs first seen by a worker'])
     return rc
